@@ -266,7 +266,13 @@ def _check_driver(ck, inst, ssite, p, owner, init, ow, nch):
                      "with overwrite=False the chains share storage with the caller's initial_state")
         wr = [e for e in p.effects if "param:init" in e.origins and e.kind in ("write", "meta")]
         if ow:
-            ck.check(bool(wr), "C13.R3", inst + ":updated in place", ssite, "overwrite=True never updates the caller's tensor")
+            okw = bool(wr)
+            if not wr:
+                # a path on which every draw takes no Gibbs step (burn_in <= 0 and steps <= 0 established): nothing to update
+                sc_ = [c for c in p.conds if getattr(c[3] if len(c) > 3 else None, "term", None) is not None]
+                nost = [ints.positive_on_path(1 - num_term(d_[5].get("k")), {}, sc_) is True if num_term(d_[5].get("k")) is not None else False for d_ in (first, gen)]
+                okw = True if all(nost) else (None if any(nost) else False)
+            ck.check(okw, "C13.R3", inst + ":updated in place", ssite, "overwrite=True never updates the caller's tensor")
         else:
             ck.check(not wr, "C13.R3", inst + ":initial_state untouched", wr[0].site if wr else ssite, "the caller's initial_state is written although overwrite=False")
     else:
